@@ -737,4 +737,34 @@ def gen(seed, tier):
         if r.random() < 0.15:
             bs[1] = "~"
         add("H2-rand", "H2 %d %s %s" % (r.randrange(0, 4), bs[0], bs[1]))
+    # ---- a find_node reply matched to its transaction (real DhtServer with an outstanding search): own id, the
+    #      responder's id, duplicates and partial records in the compact `nodes` string
+    def near(base, r_):
+        b = bytearray(base)
+        for _ in range(r_.randrange(1, 3)):
+            b[r_.choice([0, 0, 1, 19])] ^= 1 << r_.randrange(8)
+        return bytes(b)
+    for _ in range(250 if not thorough else 3000):
+        target = rb(r, 20)
+        resp = near(target, r) if r.random() < 0.5 else rb(r, 20)
+        own = OWN_ID if r.random() < 0.5 else near(target, r)
+        if resp == own:
+            resp = rb(r, 20)
+        toks = []
+        pool = [near(target, r) for _ in range(4)] + [rb(r, 20) for _ in range(2)]
+        for _ in range(r.randrange(0, 8)):
+            x = r.random()
+            nid = own if x < 0.25 else resp if x < 0.32 else r.choice(pool)
+            toks.append("R%s:%d" % (nid.hex(), r.randrange(3, 9)))
+        if r.random() < 0.3:
+            toks.append("X" + rb(r, r.randrange(1, 26)).hex())
+        if r.random() < 0.06 or not toks:
+            toks = ["~"] if r.random() < 0.5 or not toks else toks
+        x = r.random()
+        modes = ("m", "m", "s") if x < 0.8 else r.choice([("x", "m", "s"), ("m", "x", "s"), ("m", "m", "o")])
+        add("DF", "DF %s %s %s %s %s %s %s %s" % (own.hex(), target.hex(), r.choice("FFA"), resp.hex(), modes[0], modes[1], modes[2], " ".join(toks)))
+    for kind in "FA":   # the own id alone / first / last / twice
+        for toks in (["R%s:3" % OWN_ID.hex()], ["R%s:3" % OWN_ID.hex(), "R%s:4" % (b"\x70" * 20).hex()],
+                     ["R%s:4" % (b"\x70" * 20).hex(), "R%s:3" % OWN_ID.hex()], ["R%s:3" % OWN_ID.hex(), "R%s:5" % OWN_ID.hex()]):
+            add("DF-own", "DF %s %s %s %s m m s %s" % (OWN_ID.hex(), (b"\x77" * 20).hex(), kind, (b"\x22" * 20).hex(), " ".join(toks)))
     return cases, stats
